@@ -330,6 +330,10 @@ def run(scenario, world):
             else:
                 seed = sd
                 skind = 'none' if sd is None else 'int'
+                if sd is not None and op.get('seed_np'):
+                    # the same number as a numpy integer (what one gets from
+                    # an array of seeds or from rng.integers)
+                    seed = np.int64(sd)
             rng_seam.begin_records()
             res = call(e.draw, args, seed)
             recs = rng_seam.end_records()
@@ -632,6 +636,8 @@ def generate(rng, index, tier):
                 sd = None
             ops.append({'op': 'draw', 'entry': h,
                         'args': rng.randint(0, 1), 'seed': sd})
+            if isinstance(sd, int) and rng.random() < 0.2:
+                ops[-1]['seed_np'] = True
     for i, op in enumerate(ops):
         op['eid'] = i
     return {'property': PROP, 'recipes': recipes, 'ops': ops,
